@@ -297,4 +297,119 @@ def run(ctx):
     ctx.require(gate_fn is not None, "Output._may_write missing")
     _gate_table(ctx, r, gate_fn)
     interactive_rule(ctx, "C09-R8", reference=3)
+
+    # ---------------------------------------------------------------- R9
+    r = ctx.rule("C09-R9", "ORDER", "the switches govern the whole run, error reports of a failed resolution included: in run() the I/O built by the "
+                 "configured factory from the command line is in place before the command is resolved", reference=1)
+    app = ctx.cls("clikit.console_application.ConsoleApplication")
+    run_fn = app.methods.get("run")
+    ctx.require(run_fn is not None, "ConsoleApplication.run missing")
+    rcfg = ctx.cfg(run_fn)
+    # the local that the error report is rendered to
+    io_names = {a.id for c in q.calls(run_fn) if isinstance(c.func, ast.Attribute) and c.func.attr == "render" for a in c.args if isinstance(a, ast.Name)}
+    ctx.require(io_names, "run() no longer renders the error report to a local I/O")
+    built = [n for n in rcfg.nodes if n.kind == "stmt" and isinstance(n.ast, ast.Assign) and isinstance(n.ast.value, ast.Call)
+             and any(isinstance(t, ast.Name) and t.id in io_names for t in n.ast.targets)]
+    resolves = [n for c in q.calls(run_fn) if isinstance(c.func, ast.Attribute) and c.func.attr == "resolve_command" for n in rcfg.nodes_of(c)]
+    ctx.require(resolves, "run() no longer resolves the command")
+    if not built:
+        r.fail(run_fn, run_fn.node, "no I/O built from the command line", "run() never replaces the preliminary I/O by one built from the command line")
+    else:
+        for rn in resolves:
+            if any(rcfg.dominates(b.id, rn.id) for b in built):
+                r.ok("%s: %s precedes %s" % (run_fn.short, norm(built[0].ast)[:40], norm(rn.ast)[:50]))
+            else:
+                r.fail(run_fn, rn.ast, norm(rn.ast) + " before the I/O is built", "run() resolves the command before the I/O for this command line exists: an undefined command or an unknown option "
+                       "is reported on the preliminary I/O, which ignores --quiet, --no-ansi and the streams passed to run()")
+
+    # ---------------------------------------------------------------- R10
+    r = ctx.rule("C09-R10", "TABLE", "whether an Output decorates is the documented function of (stream supports ANSI, formatter disables ANSI, formatter forces "
+                 "ANSI): forced -> yes on any stream; disabled and not forced -> no, whatever the stream; otherwise what the stream supports "
+                 "(decided where the default configuration hands the formatter over: the constructor)", reference=8)
+    init = out_cls.methods.get("__init__")
+    ctx.require(init is not None, "Output.__init__ missing")
+    ATOMS = ("supports_ansi", "disable_ansi", "force_ansi")
+    icfg = ctx.cfg(init)
+    field = None
+    sa = ctx.cls("clikit.api.io.output.Output").methods.get("supports_ansi")
+    if sa is not None:
+        for ret in q.returns(sa):
+            if ret.value is not None and is_self_attr(ret.value):
+                field = ret.value.attr
+    ctx.require(field is not None, "Output.supports_ansi no longer returns a field")
+
+    def atom(e):
+        return e.func.attr if isinstance(e, ast.Call) and isinstance(e.func, ast.Attribute) and e.func.attr in ATOMS else None
+
+    def ev(e, env):
+        a = atom(e)
+        if a:
+            return env[a]
+        if isinstance(e, ast.BoolOp):
+            vals = [ev(v, env) for v in e.values]
+            if any(v is None for v in vals):
+                return None
+            return all(vals) if isinstance(e.op, ast.And) else any(vals)
+        if isinstance(e, ast.UnaryOp) and isinstance(e.op, ast.Not):
+            v = ev(e.operand, env)
+            return None if v is None else (not v)
+        if isinstance(e, ast.Constant) and isinstance(e.value, bool):
+            return e.value
+        if isinstance(e, ast.IfExp):
+            t = ev(e.test, env)
+            return None if t is None else ev(e.body if t else e.orelse, env)
+        return None
+
+    def simulate(env):
+        """set of values the field can hold at the normal exit"""
+        out = set()
+        stack = [(icfg.entry.id, "unset", frozenset())]
+        seen = set()
+        while stack:
+            nid, val, _ = stack.pop()
+            if (nid, val) in seen:
+                continue
+            seen.add((nid, val))
+            nd = icfg.nodes[nid]
+            if nid == icfg.exit.id:
+                out.add(val)
+                continue
+            if nd.kind == "stmt" and isinstance(nd.ast, ast.Assign) and any(is_self_attr(t, field) for t in nd.ast.targets):
+                val = ev(nd.ast.value, env)
+            succs = icfg.succs(nid)
+            if nd.kind == "cond":
+                v = ev(nd.ast, env)
+                if v is not None:
+                    t_, f_ = icfg.true_of(nd), icfg.false_of(nd)
+                    succs = [(t_ if v else f_).id] if (t_ if v else f_) is not None else succs
+            for s_ in succs:
+                stack.append((s_, val, frozenset()))
+        return out
+
+    import itertools
+    for sup, dis, frc in itertools.product((False, True), repeat=3):
+        env = {"supports_ansi": sup, "disable_ansi": dis, "force_ansi": frc}
+        want = True if frc else (False if dis else sup)
+        got = simulate(env)
+        desc = "supports=%s disable=%s force=%s" % (sup, dis, frc)
+        if got == {want}:
+            r.ok("Output(): %s -> %s" % (desc, want))
+        else:
+            shown = sorted("?" if g is None else str(g) for g in got)
+            r.fail(init, init.node, "decorate(%s) = %s" % (desc, "/".join(shown)), "Output() decides self.%s = %s for %s, expected %s: %s" % (
+                field, "/".join(shown), desc, want,
+                "under --no-ansi on a capable terminal the output still claims ANSI support, so sections and progress bars emit cursor-movement sequences" if dis and not frc
+                else "--ansi does not force decoration on this stream" if frc else "the stream's own capability is not honoured"))
+
+    # ---------------------------------------------------------------- R11 / R12
+    from .c01 import pushback_rule
+    from .c02 import lenient_total_rule
+
+    r = ctx.rule("C09-R11", "POLARITY", "a switch placed before '--' keeps its place: when the parser looks ahead for an option value and finds '--' or another "
+                 "option, the token goes back to the front of the pending tokens - otherwise '-v -- -V' moves the separator to the end and '-V' after it "
+                 "prints the version (same rule as the lookahead clause of C01-R4)", reference=3)
+    pushback_rule(ctx, r, ctx.cls("clikit.args.default_args_parser.DefaultArgsParser"))
+    r = ctx.rule("C09-R12", "EXC", "the help switch is honoured wherever it stands before '--': the lenient parse that looks for it never raises a parse error, "
+                 "whatever else is wrong with the line (same rule as C02-R2)", reference=20)
+    lenient_total_rule(ctx, r)
     return ctx.results
